@@ -1372,3 +1372,67 @@ Proof.
     + destruct HI as [HI|[]]. inversion HI; subst. unfold wt; ktags; cbn.
       repeat split; intros Y; try discriminate. eauto.
 Qed.
+
+(* ---------- one update on its node ---------- *)
+
+Lemma upd_steps_commute : forall nd ss st,
+  upd_ss_step (upd_st_step nd st) ss = upd_st_step (upd_ss_step nd ss) st.
+Proof.
+  intros nd ss st. unfold upd_ss_step, upd_st_step.
+  destruct (ss_emptyb ss); destruct (st_emptyb st); reflexivity.
+Qed.
+Lemma upd_ss_wf_st : forall nd ss st, upd_ss_wf (upd_st_step nd st) ss = upd_ss_wf nd ss.
+Proof. intros. unfold upd_st_step. now destruct (st_emptyb st). Qed.
+Lemma upd_ents_wf_st : forall nd es st, upd_ents_wf (upd_st_step nd st) es = upd_ents_wf nd es.
+Proof. intros. unfold upd_st_step. now destruct (st_emptyb st). Qed.
+
+Definition wb_in_node (w : wb) (n : nid) : Prop := forall o, In o w -> key_node (wkey o) = n.
+Definition wb_wt (w : wb) : Prop := forall k v, In (WPut k v) w -> wt k v.
+
+Lemma wb_in_node_app : forall a b n, wb_in_node a n -> wb_in_node b n -> wb_in_node (a ++ b) n.
+Proof. intros a b n Ha Hb o HI. apply in_app_or in HI. destruct HI; auto. Qed.
+Lemma wb_wt_app : forall a b, wb_wt a -> wb_wt b -> wb_wt (a ++ b).
+Proof. intros a b Ha Hb k v HI. apply in_app_or in HI. destruct HI; [eapply Ha | eapply Hb]; eauto. Qed.
+
+Lemma save_node : forall m c nd n u, sorted m -> WT m ->
+  RnG (kv_get m) (c n) nd n -> u_node u = n -> update_wf nd u = true ->
+  exists c1 wh, save_head m c u = Some (c1, wh) /\
+    (forall n', n' <> n -> c1 n' = c n') /\ wb_in_node wh n /\ wb_wt wh /\
+    forall ct, ct n = c1 n ->
+      let (ct', wt_) := save_tail plain_record ct u in
+      (forall n', n' <> n -> ct' n' = ct n') /\ wb_in_node wt_ n /\ wb_wt wt_ /\
+      RnG (gapply (wh ++ wt_) (kv_get m)) (ct' n) (update_step nd u) n.
+Proof.
+  intros m c nd n u HS HW H Hn Hwf. unfold update_wf in Hwf. apply andb_true_iff in Hwf.
+  destruct Hwf as [Wss Wes].
+  rewrite save_head_parts. rewrite Hn.
+  pose proof (stage_state (kv_get m) c nd n (u_st u) H) as S1.
+  destruct (state_part c n (u_st u)) as [ca w1]. destruct S1 as (R1 & O1 & K1).
+  assert (K1n : wb_in_node w1 n).
+  { intros o HI. rewrite (K1 o HI). unfold key_node; cbn; apply nid_eta. }
+  assert (K1w : wb_wt w1).
+  { intros k v HI. apply K1 in HI. inversion HI; subst. unfold wt; ktags; cbn.
+    repeat split; intros X; try discriminate. eauto. }
+  destruct (stage_snap m (gapply w1 (kv_get m)) ca (upd_st_step nd (u_st u)) n (u_ss u) (u_ents u) HS HW R1)
+    as (c1 & w2 & E2 & R2 & O2 & K2n & K2w).
+  { intros i. unfold gapply. rewrite wb_last_none; auto.
+    intros o HI. rewrite (K1 o HI). cbn [wkey]. intros X; ktags; inversion X. }
+  { now rewrite upd_ss_wf_st. }
+  { intros E Hne. unfold upd_ents_wf in Wes. destruct (u_ents u) as [|e0 es0] eqn:EU; [contradiction|].
+    rewrite !andb_true_iff in Wes. destruct Wes as (((A & B) & C) & D). apply N.ltb_lt in A.
+    pose proof (ents_okb_contig _ _ _ D) as HC.
+    rewrite (last_index_contig _ _ HC) by discriminate. rewrite nlen_cons.
+    unfold upd_ss_step in A. rewrite E in A. cbn [n_marker] in A. lia. }
+  rewrite E2. exists c1, (w1 ++ w2). split; [reflexivity|]. split; [|split; [|split]].
+  - intros n' Hn'. rewrite O2 by auto. auto.
+  - now apply wb_in_node_app.
+  - now apply wb_wt_app.
+  - intros ct Hct.
+    assert (R2' : RnG (gapply (w1 ++ w2) (kv_get m)) (ct n) (upd_st_step (upd_ss_step nd (u_ss u)) (u_st u)) n).
+    { rewrite Hct, <- upd_steps_commute. eapply RnG_ext; [exact R2|]. intros k _. apply gapply_app. }
+    pose proof (stage_ents (gapply (w1 ++ w2) (kv_get m)) ct _ n u R2' Hn) as S3.
+    rewrite upd_ents_wf_st in S3. specialize (S3 Wes).
+    destruct (save_tail plain_record ct u) as [ct' w3]. destruct S3 as (R3 & O3 & K3n & K3w).
+    split; [auto | split; [auto | split; [auto|]]].
+    unfold update_step. eapply RnG_ext; [exact R3|]. intros k _. apply gapply_app.
+Qed.
